@@ -328,6 +328,14 @@ func (q *Query) Define(name string, t Term) Term {
 	return Term{name, t.Sort}
 }
 
+// Named introduces a declared constant equal to t (usable inside quantifier patterns, unlike a
+// define-fun abbreviation which the solver expands).
+func (q *Query) Named(name string, t Term) Term {
+	c := q.Fresh(name, t.Sort)
+	q.lines = append(q.lines, "(assert (= "+c.S+" "+t.S+"))")
+	return c
+}
+
 func (q *Query) Assert(t Term) {
 	if t.S == "true" {
 		return
